@@ -96,6 +96,9 @@ class RepeatingEventBase(EventBase):
                 presentation_time += self.interval
                 continue
             assert (presentation_time >= seg_start)
+            if self.count > 0 and event_id >= self.count:
+                # the schedule only has events 0 .. count-1
+                break
             data = self.get_emsg_event_payload(
                 event_id, presentation_time)
             kwargs = {
